@@ -6,6 +6,7 @@
      e <hex|->                           base58_spec_encode (positional spec)   -> ok <hex>
      d <hex|->                           base58_spec_decode                     -> ok <hex> | err invalid
      H <len> <keyhex|-> <msghex|->       stringer_hash                          -> ok <hex> | err <message>
+     h <msghex|->                        stringer_hash_default (len = 20)       -> ok <hex> | err <message>
    Byte strings travel as hex ("-" = empty). *)
 open Model
 open Zutil
@@ -39,6 +40,7 @@ let () =
            | "D" -> show (lbase58_decode (bytes_of (a 0)))
            | "e" -> "ok " ^ hex_of (base58_spec_encode (bytes_of (a 0)))
            | "d" -> (match base58_spec_decode (bytes_of (a 0)) with Some l -> "ok " ^ hex_of l | None -> "err invalid")
+           | "h" -> show (stringer_hash_default (bytes_of (a 0)))
            | "H" -> show (stringer_hash (bytes_of (a 2)) (z_of_dec (a 0)) (bytes_of (a 1)))
            | _ -> "?unknown-op")
         with e -> "!exn " ^ Printexc.to_string e
